@@ -923,6 +923,20 @@ impl<
         let max_shard = shard_store.shard_sizes().iter().copied().max().unwrap_or(0);
         let filter = TypeId::of::<V>() == TypeId::of::<EmptyVal>();
 
+        if max_shard as f64 > 1.01 * self.num_keys as f64 / shard_edge.num_shards() as f64 {
+            // This might sometimes happen with small sharded graphs. We must
+            // give up before setting up the graphs, as the shard/edge logic is
+            // entitled to assume that no shard is larger than this.
+            if shard_edge.shard_high_bits() != 0 {
+                pl.info(format_args!(
+                    "Max shard / average shard: {:.2}%",
+                    (100.0 * max_shard as f64)
+                        / (self.num_keys as f64 / shard_edge.num_shards() as f64)
+                ));
+            }
+            return Err(SolveError::MaxShardTooBig.into());
+        }
+
         (self.c, self.lge) = shard_edge.set_up_graphs(self.num_keys, max_shard);
 
         if filter {
@@ -947,25 +961,20 @@ impl<
             ));
         }
 
-        if max_shard as f64 > 1.01 * self.num_keys as f64 / shard_edge.num_shards() as f64 {
-            // This might sometimes happen with small sharded graphs
-            Err(SolveError::MaxShardTooBig.into())
-        } else {
-            let data = new_data(
-                self.bit_width,
-                shard_edge.num_vertices() * shard_edge.num_shards(),
-            );
-            self.try_build_from_shard_iter(seed, data, shard_store.into_iter(), get_val, pl)
-                .inspect(|_| {
-                    info!(
-                        "Construction from signatures completed in {:.3} seconds ({} keys, {:.3} ns/key)",
-                        start.elapsed().as_secs_f64(),
-                        self.num_keys,
-                        start.elapsed().as_nanos() as f64 / self.num_keys as f64
-                    );
-                })
-                .map_err(Into::into)
-        }
+        let data = new_data(
+            self.bit_width,
+            shard_edge.num_vertices() * shard_edge.num_shards(),
+        );
+        self.try_build_from_shard_iter(seed, data, shard_store.into_iter(), get_val, pl)
+            .inspect(|_| {
+                info!(
+                    "Construction from signatures completed in {:.3} seconds ({} keys, {:.3} ns/key)",
+                    start.elapsed().as_secs_f64(),
+                    self.num_keys,
+                    start.elapsed().as_nanos() as f64 / self.num_keys as f64
+                );
+            })
+            .map_err(Into::into)
     }
 
     /// Builds and return a new function starting from an iterator on shards.
